@@ -1,9 +1,9 @@
 package harness
 
 import (
-	"net/http"
 	"context"
 	"fmt"
+	"net/http"
 	"strings"
 	"sync"
 
